@@ -262,6 +262,10 @@ func NewLengthedBytesSlice(m [][]byte) ([]byte, error) {
 }
 
 func WriteLengthedSlice(w io.Writer, m [][]byte) error {
+	if uint64(len(m)) > maxLengthBytes {
+		return errors.Errorf("too many items, %d", len(m))
+	}
+
 	if _, err := w.Write(Uint64ToBytes(uint64(len(m)))); err != nil {
 		return errors.WithStack(err)
 	}
@@ -284,7 +288,7 @@ func ReadLengthedBytesSlice(b []byte) (m [][]byte, left []byte, _ error) {
 	case err != nil:
 		return nil, nil, err
 	case i > maxLengthBytes:
-		return nil, nil, err
+		return nil, nil, errors.Errorf("huge size, %v", i)
 	default:
 		m = make([][]byte, i)
 
@@ -369,6 +373,10 @@ func (f *BytesFrameWriter) Header(bs ...[]byte) error {
 		return errors.Errorf("header already written")
 	}
 
+	if uint64(len(bs)) > maxLengthBytes {
+		return errors.Errorf("too many header items, %d", len(bs))
+	}
+
 	defer func() {
 		f.headerWritten = true
 	}()
@@ -413,7 +421,7 @@ type BytesFrameReader struct {
 func NewBytesFrameReader(r io.Reader) (*BytesFrameReader, error) {
 	var version [2]byte
 
-	switch _, err := r.Read(version[:]); {
+	switch _, err := io.ReadFull(r, version[:]); {
 	case errors.Is(err, io.EOF):
 	case err != nil:
 		return nil, errors.Wrap(err, "version")
